@@ -29,7 +29,7 @@ SHARDS = {'quick': 16, 'thorough': 16}
 CASES = {'quick': 170, 'thorough': 5000}
 
 CLAUSES = {'vd-terminator', 'both-endian', 'vd-root-record', 'vd-sizes-agree', 'vd-duplicate-pvd', 'vd-enhanced', 'vd-no-pvd', 'vd-block-size',
-           'dir-record-packing', 'dir-size', 'dir-bounds', 'dir-dot', 'dir-dotdot', 'dir-order', 'dir-order-ecma', 'dup-ident', 'multi-extent',
+           'dir-record-packing', 'dir-size', 'dir-bounds', 'dir-dot', 'dir-dotdot', 'dir-order', 'dir-order-ecma', 'dir-order-ecma-version', 'dup-ident', 'multi-extent',
            'dir-cycle', 'pt-bounds', 'pt-size', 'pt-content', 'pt-order', 'pt-extent', 'pt-parent', 'pt-le-be-agree', 'name-encoding', 'unreadable'}
 
 
